@@ -55,6 +55,11 @@ claim("C19", "model_checking",
       "AtomsOps.tla specifies Delete/Reinsert on sequences and the admitted-component partition of a graph; TLC checks C19_Inverse / C19_DeleteRemoves / C19_Partition for every index sequence (all subsets, all orders) and every graph up to the bound and exports the expected results; each case is executed with del atoms[I] + reinsert_atoms on atoms carrying seven per-atom arrays of different dtypes (bytes and dtype compared) and with search_molecules on a geometric realisation of the graph (per-pair cutoff dict), default arrays cycling through None / constant / distinct negatives; random larger cases use an independent union-find oracle.",
       "Trusted: TLC, ASE's neighbour list for realising a graph geometrically, the ndjson export. Bound: <= 4 atoms (quick) / 5 (thorough) exhaustive, random cases up to 12 atoms.", "5 C19")
 
+claim("C02", "model_checking",
+      "TLC exhaustive on an exact lattice of the acceptance rule (Accept.tla) + realisation of every lattice point on real driver objects; float mirror with guard band off the lattice",
+      "Accept.tla states u < min(1, A) for the six rules as an integer comparison on a lattice where it is exact (energies, P dV, stress work, mu in units of kT ln2; V'/V and ideal-gas prefactors powers of two; u = 2^-(j+1/2), keeping every point a factor sqrt(2) from the boundary) including exponents far beyond +-709 and compensated extremes for a 2047-atom system; TLC checks the rule's theorems (favourable always accepted, hydrostatic isotension = isobaric, monotone in energy, SetThenTrial) and exports the expected verdict of every point; each point is realised on Canonical / HamiltonianCanonical / Isobaric / Isotension / GrandCanonical objects through their property setters after stale values were installed, with the uniform imposed through the simulation's own generator; any exception is a violation. Random off-lattice inputs (incl. sheared cells, arbitrary stress) are judged by a log-form mirror with a guard band.",
+      "Trusted: TLC; the float realisation of lattice inputs (errors ~1e-15 relative against a sqrt(2) margin); scipy's CODATA constants for the thermal wavelength; strain taken as the criteria publishes it.", "5 C02")
+
 NOT_YET = "check not built yet in this round (planned in DESIGN.md section 5); will be claimed once its spec and conformance harness exist"
 
 
